@@ -442,6 +442,10 @@ def run_shapes(ctx, case):
     ctx.count("runtime_fault_linenos_checked")
     ctx.feature(("shapes", cmd, k, odd))
     got = getattr(err, "lineno", None)
+    if got is None:
+        # the check is made by the command, which knows its line and hands it to the error: the error has to keep it
+        ctx.fail("runtime-fault:fields-of-different-lengths:lineno-missing", {"acceptable": sorted(ok), "text": text})
+        return
     if got is not None and got not in ok:
         ctx.fail("runtime-fault:fields-of-different-lengths:%s" % ("line-of-a-field-that-fits" if start + 2 <= got < start + 2 + k else "line-of-another-command"), {"got": got, "acceptable": sorted(ok), "text": text})
 
@@ -479,6 +483,9 @@ def run_thresholds(ctx, case):
         if ln is not None and not (start <= ln <= end):
             ctx.fail("runtime-fault:equal-thresholds:line-of-another-command", {"way": tag, "got": ln, "own_command_lines": [start, end], "text": text})
             return
+    if got["written-out"][0] is None and got["left-out"][0] is None:
+        ctx.fail("runtime-fault:equal-thresholds:lineno-missing", {"text": got["written-out"][3]})
+        return
     if (got["written-out"][0] is None) != (got["left-out"][0] is None):
         tag = "left-out" if got["left-out"][0] is None else "written-out"
         ctx.fail("runtime-fault:equal-thresholds:no-line-when-the-thresholds-are-%s" % tag, {"written_out": got["written-out"][0], "left_out": got["left-out"][0], "text": got[tag][3]})
